@@ -290,7 +290,9 @@ def run_lin(case):
         checks += 3
         ref = outs[0]
         for k, o in enumerate(outs[1:]):
-            d = nrm(o - ref) / max(nrm(ref), 1e-300) if nrm(ref) > 0 else nrm(o - ref)
+            # (scale incl. 1e-3 ||x||: data that cancels exactly leaves only round-off, which
+            # depends on the summation order of a contiguous copy vs a strided original)
+            d = nrm(o - ref) / max(nrm(ref), 1e-3 * nrm(x), 1e-300)
             if o.shape != ref.shape or not d <= dtol:
                 return violated(sig, "same operator, equal input, different output at "
                                 "repetition %d (rel %.3g)" % (k + 1, d), wit,
